@@ -27,27 +27,27 @@ TRUSTED = ['CPython tokenizer/parser/compiler: which texts are valid Python and 
            'on generated texts on every run',
            'str.isprintable table of the running interpreter (coq/gen/Codegen_gen.v, regenerated each run; no '
            'theorem depends on it)']
-ASSUMPTIONS = ['theorems named _partial assume the text has no bare "\\r" (and, for the column statement, no form '
-               'feed); formula texts are valid Unicode strings (no lone surrogates: those make ast.parse raise '
+ASSUMPTIONS = ['formula texts are valid Unicode strings (no lone surrogates: those make ast.parse raise '
                'UnicodeEncodeError and cannot arrive through the UTF-8 transport)',
+               'the column statement (C19_indent_columns_partial) assumes no form feed: a form feed in leading '
+               'whitespace is a known finding (C19_refuted_ff)',
                'isolation of *valid-looking* bodies (accepted by ast.parse) rests on CPython: the end-to-end oracle '
-               'checks it on generated documents only (it finds the compile-stage, form-feed, NUL, recursion-limit and '
-               'multi-line-string findings listed in known_findings.json)',
+               'checks it on generated documents only (it finds the compile-stage, form-feed, NUL and recursion-limit '
+               'findings listed in known_findings.json)',
                'the `$name` theorem does not cover the lambda wrapping of IF/ISERR/ISERROR/IFERROR/PEEK arguments, the '
                '"\\npass" added to a body without statements, and token streams ending in a string/comment token '
                'whose last character is `$`',
-               'a violation whose text holds "\\r" is attributed to the "\\r" finding only when the same text with '
-               '"\\n" line ends passes the whole oracle on a fresh document; otherwise it is classified by what the '
-               '"\\n" text shows']
+               'a failing text that holds "\\r" is reported as kind cr-line-ends when the same text with "\\n" line '
+               'ends passes the whole oracle on a fresh document (fixed by /repo 2055653: any such case is a VIOLATION)']
 TECHNIQUE = ('Coq proof over hand-written line-level models tied by differential cases (vm_compute) + end-to-end '
              'oracle through the real engine with an independent tokenize/ast reference evaluation')
-LEVEL_TEXT = ('Kernel-checked theorems for all texts about the line-level functions that place a formula into the '
-              'shared module (comment-out, indent, dedent, syntax-error stub, `$name` patches): refuted on the '
-              'current source by a bare "\\r" (C19_refuted_cr, vm_compute witness), proved under "no bare \\r" and '
-              'proved in full for the repaired variant; models compared with the running code each run; whole-'
-              'engine oracle on generated documents.')
-LEVEL_NOTE = ('Kernel strength: that arbitrary text parses/evaluates as Python says is CPython\'s (trusted oracle). '
-              'Known findings on the unchanged tree are listed in known_findings.json.')
+LEVEL_TEXT = ('Kernel-checked theorems for ALL formula texts about the line-level chain that places a formula into the '
+              'shared module (line-end normalisation + dedent, comment-out, indent, syntax-error stub, un-indent of '
+              'multi-line strings, `$name` patches, field placement), on models compared with the running code each '
+              'run; whole-engine oracle on generated documents with an independent tokenize/ast reference.')
+LEVEL_NOTE = ('Kernel strength: that arbitrary text parses/evaluates as Python says is CPython\'s (trusted oracle). The '
+              '"\\r" and multi-line-string defects were repaired in /repo (2055653, 66ce871; regression examples kept); '
+              'form feed, compile-stage errors, NUL and recursion limit remain known findings.')
 
 INDENTS = ['', '  ', '    ', '\t']
 
@@ -278,10 +278,14 @@ def correspond(ctx):
              [st.replace('{E}', '$A').replace('{F}', '2') for st in STMTS]
   c, u, chk = dollar_cases(ctx, formulas)
   jobs.append(('dollar', chk, c, u, 'token-stream meaning / model translate differ from make_formula_body on', 1500))
-  c, u, chk = offsets_cases(ctx, formulas + texts)
+  c, u, chk = offsets_cases(ctx, (formulas + texts)[:ctx.n(300, 12000)])
   jobs.append(('offsets', chk, c, u, 'tmp_text/get_input_pos differ from textbuilder.Replacer on', 1500))
   ctx.bump('corr:replacer offsets texts', len(c))
-  c, u, chk = field_cases(ctx, formulas)
+  c, u, chk = pipeline_cases(ctx, LISTED[:-1] + INVALID + (texts + formulas)[:ctx.n(260, 12000)])
+  jobs.append(('pipeline', chk, c, u, 'indent_re ind (stub_of_formula ..) differs from make_formula_body on', 1000))
+  c, u, chk = unindent_cases(ctx, ctx.n(120, 3000))
+  jobs.append(('unindent', chk, c, u, 'indent + unindent_re differ from make_formula_body on the string literal', 1500))
+  c, u, chk = field_cases(ctx, formulas[:ctx.n(150, 5000)])
   jobs.append(('field', chk, c, u, 'formula_field differs from GenCode._make_formula_field on', 1500))
   ctx.bump('corr:formula fields', len(c))
 
@@ -395,10 +399,10 @@ def dollar_cases(ctx, formulas):
   import textbuilder
   cases, used = [], []
   for f in formulas:
-    if '\r' in f or '\x0c' in f or '\x00' in f:
+    if '\x0c' in f or '\x00' in f:
       continue
     try:
-      f0 = codebuilder._dedent(textbuilder.Text(f)).get_text()
+      f0 = codebuilder._dedent(textbuilder.Text(UNIVERSAL_NL.sub('\n', f))).get_text()
       body = codebuilder.make_formula_body(f, None).get_text()
     except Exception:              # pylint: disable=broad-except
       continue                     # escaping exceptions are the search's business
@@ -413,10 +417,11 @@ def dollar_cases(ctx, formulas):
       ctx.bump('corr:dollar skipped (outside the model)')
       continue
     ks = core.coq_list([coq_tok(k, s) for k, s in segs])
-    cases.append('(%s, %s, %s)' % (ks, S(f0), S(body)))
+    cases.append('(%s, %s, %s)' % (ks, S(f), S(body)))
     used.append(f)
     ctx.count(('dollar', f), nontrivial=('$' in f), sample={'formula': f, 'body': body}, kind='corr:dollar')
-  check = ('fun c => match c with (ks, f0, body) => forallb tok_wf ks && teq (src_of ks) f0 && teq (spec_of ks) body '
+  check = ('fun c => match c with (ks, f, body) => let f0 := formula_text f in '
+           'forallb tok_wf ks && teq (src_of ks) f0 && teq (spec_of ks) body '
            '&& teq (translate f0 (rev (name_offsets 0 ks)) (match mark_offsets 0 ks with p :: _ => Some p | [] => None end)) '
            'body end')
   return cases, used, check
@@ -456,6 +461,63 @@ def field_cases(ctx, formulas):
     cases.append('(%s, %s)' % (S(body), S(text)))
     used.append(f)
   check = ('fun c => teq (formula_field [32; 32] [88] [114; 101; 99; 44; 32; 116; 97; 98; 108; 101] (fst c)) (snd c)')
+  return cases, used, check
+
+
+def pipeline_cases(ctx, formulas):
+  """make_formula_body on formulas it rejects: the whole chain (line ends, _dedent, stub, _indent) against the
+  model's indent_re ind (stub_of_formula ...); the stub's arguments are read back from its last statement."""
+  import codebuilder
+  cases, used = [], []
+  for f in formulas:
+    if not f.strip() or '\x00' in f:
+      continue
+    ind = ctx.rng.choice(['    ', '  ', ''])
+    try:
+      body = codebuilder.make_formula_body(f, None, indent=ind).get_text()
+    except Exception:              # pylint: disable=broad-except
+      continue                     # escaping exceptions are the search's business
+    m = re.search(r'(?:\A|\n)[ ]*raise ([A-Za-z_]+)\((.*)\)\Z', body, re.S)
+    if not body.lstrip().startswith('#') or not m:
+      continue
+    try:
+      message, (_uc, line, col1, line_text) = ast.literal_eval('(' + m.group(2) + ')')
+    except (SyntaxError, ValueError, TypeError) as e:
+      ctx.broken('correspondence:the stub does not end in one statement `raise Name(<literals>)`',
+                 'formula %r: %r' % (f, e))
+      continue
+    cases.append('(%s, %s, %s, %s, %s, %s, %s, %s)' % (S(ind), S(m.group(1)), S(message), core.zlit(line),
+                                                       core.zlit(col1), S(line_text), S(f), S(body)))
+    used.append(f)
+    ctx.count(('pipeline', f), nontrivial=True, sample={'formula': f, 'body': body},
+              kind='corr:pipeline ' + kind_of_text(f))
+  check = ('fun c => match c with (ind, name, msg, line, col1, ltext, f, body) => '
+           'teq (indent_re ind (stub_of_formula printable name msg line col1 ltext f)) body end')
+  return cases, used, check
+
+
+def unindent_cases(ctx, n):
+  """A formula that is one multi-line string literal: the generated body against indent + un-indent of the model."""
+  import codebuilder
+  rng = ctx.rng
+  pieces = ['', ' ', '  ', '    ', '     ', '        ', '\t', 'a', '  b', '    c', '      d', '# e', '\xa0', '    \xa0',
+            '$A', 'return 5', ' \t ', '    \t']
+  q3 = '"' * 3
+  cases, used = [], []
+  for _ in range(n):
+    s = '\n'.join(rng.choice(pieces) for _ in range(rng.randint(2, 6)))
+    f = q3 + s + q3
+    ind = rng.choice(['    ', '  ', '        '])
+    try:
+      body = codebuilder.make_formula_body(f, None, indent=ind).get_text()
+    except Exception as e:         # pylint: disable=broad-except
+      ctx.broken('correspondence:make_formula_body raised on a string literal', '%r: %r' % (f, e))
+      continue
+    cases.append('(%s, %s, %s)' % (S(ind), S('return ' + f), S(body)))
+    used.append(f)
+    ctx.count(('unindent', ind, f), nontrivial=True, sample={'formula': f, 'body': body}, kind='corr:unindent')
+  check = ('fun c => match c with (ind, b, body) => let i := indent_re ind b in let k := (List.length ind + 7)%nat in '
+           'teq (firstn k i ++ unindent_re ind (skipn k i)) body && teq body (ind ++ b) end')
   return cases, used, check
 
 
@@ -950,7 +1012,7 @@ LISTED = ['x = 1\rreturn x', 'foo(\rbar', '"""a\n    \nb"""', '  x = $A\r\n\r\n 
 def search(ctx):
   rng = ctx.rng
   n = ctx.n(260, 6000)
-  formulas = [gen_formula(rng) for _ in range(n)] + [(f, 'listed') for f in LISTED]
+  formulas = [(f, 'listed') for f in LISTED] + [gen_formula(rng) for _ in range(n)]
   doc = None
   used = 0
   path = 'modify'
